@@ -624,3 +624,58 @@ Proof.
   replace (a + j - (a + i))%Z with (j - i)%Z in D by ring.
   rewrite Z.mod_small in D by lia. lia.
 Qed.
+
+(** ** 3.4 the weight slices and the trapezoid weights *)
+Lemma dg_nth_firstn (l : list Z) : forall m j d, j < m -> nth j (firstn m l) d = nth j l d.
+Proof. induction l as [|x l IH]; intros [|m] [|j] d H; cbn; try lia; try reflexivity. apply IH. lia. Qed.
+
+Lemma dg_nth_skipn (l : list Z) : forall s j d, nth j (skipn s l) d = nth (s + j) l d.
+Proof. induction l as [|x l IH]; intros [|s] j d; cbn [skipn Nat.add]; try reflexivity.
+  - destruct j; reflexivity.
+  - cbn [nth]. apply IH. Qed.
+
+(** index j of the slice l[s:e] is index s+j of l: the local weight of local index j is the global weight
+    of the global index start+j *)
+Lemma dg_slice_nth l s e j : j < e - s -> dg_zn (dg_slice l s e) j = dg_zn l (s + j).
+Proof. intros H. unfold dg_zn, dg_slice. rewrite dg_nth_firstn by exact H. apply dg_nth_skipn. Qed.
+
+Definition dg_lsum (l : list Z) : Z := fold_right Z.add 0%Z l.
+Fixpoint dg_dot (w x : list Z) : Z :=
+  match w, x with a :: w', b :: x' => (a * b + dg_dot w' x')%Z | _, _ => 0%Z end.
+
+Lemma dg_pairsum_sum ds : forall p, dg_lsum (dg_pairsum p ds) = (p + 2 * dg_lsum ds)%Z.
+Proof. induction ds as [|d t IH]; intros p; cbn [dg_pairsum dg_lsum fold_right]; [lia|].
+  fold (dg_lsum (dg_pairsum d t)). rewrite IH. fold (dg_lsum t). lia. Qed.
+
+Lemma dg_diff_sum x : forall a, dg_lsum (dg_diff (a :: x)) = (last (a :: x) 0 - a)%Z.
+Proof. induction x as [|b t IH]; intros a; [cbn; lia|].
+  change (dg_diff (a :: b :: t)) with ((b - a)%Z :: dg_diff (b :: t)).
+  cbn [dg_lsum fold_right]. fold (dg_lsum (dg_diff (b :: t))). rewrite IH.
+  change (last (a :: b :: t) 0%Z) with (last (b :: t) 0%Z). lia. Qed.
+
+(** the trapezoid weights sum to the length of the interval (doubled): sum dvMult = vMax - vMin *)
+Lemma dg_trap2_sum a b t : dg_lsum (dg_trap2 (a :: b :: t)) = (2 * (last (a :: b :: t) 0 - a))%Z.
+Proof. unfold dg_trap2. change (dg_diff (a :: b :: t)) with ((b - a)%Z :: dg_diff (b :: t)).
+  cbn [dg_lsum fold_right]. fold (dg_lsum (dg_pairsum (b - a) (dg_diff (b :: t)))).
+  rewrite dg_pairsum_sum, dg_diff_sum. change (last (a :: b :: t) 0%Z) with (last (b :: t) 0%Z). lia. Qed.
+
+Lemma dg_pairsum_dot t : forall p b,
+  dg_dot (dg_pairsum p (dg_diff (b :: t))) (b :: t) = (p * b + last (b :: t) 0 * last (b :: t) 0 - b * b)%Z.
+Proof. induction t as [|c t IH]; intros p b.
+  - cbn. lia.
+  - change (dg_diff (b :: c :: t)) with ((c - b)%Z :: dg_diff (c :: t)).
+    cbn [dg_pairsum dg_dot]. rewrite IH. change (last (b :: c :: t) 0%Z) with (last (c :: t) 0%Z). lia. Qed.
+
+(** the r-weighted trapezoid sum is exact for the linear integrand: sum drMult_i r_i = (rMax^2 - rMin^2)/2 (doubled) *)
+Lemma dg_trap2_dot a b t :
+  dg_dot (dg_trap2 (a :: b :: t)) (a :: b :: t) = (last (a :: b :: t) 0 * last (a :: b :: t) 0 - a * a)%Z.
+Proof. unfold dg_trap2. change (dg_diff (a :: b :: t)) with ((b - a)%Z :: dg_diff (b :: t)).
+  cbn [dg_dot]. rewrite dg_pairsum_dot. change (last (a :: b :: t) 0%Z) with (last (b :: t) 0%Z). lia. Qed.
+
+Lemma dg_pairsum_length t : forall p b, length (dg_pairsum p (dg_diff (b :: t))) = length (b :: t).
+Proof. induction t as [|c t IH]; intros p b; [reflexivity|].
+  change (dg_diff (b :: c :: t)) with ((c - b)%Z :: dg_diff (c :: t)). cbn [dg_pairsum length]. f_equal. apply IH. Qed.
+
+Lemma dg_trap2_length a b t : length (dg_trap2 (a :: b :: t)) = length (a :: b :: t).
+Proof. unfold dg_trap2. change (dg_diff (a :: b :: t)) with ((b - a)%Z :: dg_diff (b :: t)). cbn [length]. f_equal.
+  apply dg_pairsum_length. Qed.
